@@ -96,15 +96,15 @@ def gen_small(ck: Check):
         two.extend((W, H, [list(a), list(b)]) for a, b in itertools.combinations_with_replacement(types, 2)
                    if a[2] + b[2] <= 5)
     if ck.quick:
-        one = rng.sample(one, 700)
-        two = rng.sample(two, 2500)
+        one = rng.sample(one, min(len(one), 700))
+        two = rng.sample(two, min(len(two), 2500))
     else:
-        two = rng.sample(two, 60000)
+        two = rng.sample(two, min(len(two), 60000))
     for c in one:
         yield ("exh1", *c)
     for c in two:
         yield ("exh2", *c)
-    for _ in range(1200 if ck.quick else 25000):
+    for _ in range(1200 if ck.quick else 100000):
         W, H = rng.choice(bins)
         dims = valid_dims(W, H)
         items, tot = [], 0
@@ -150,7 +150,7 @@ def gen_item(rng, W, H, mode):
 def gen_mid(ck: Check):
     """boundary (threshold) and structured random instances, W,H <= 200, <= 40 items, both orientations"""
     rng = ck.rng
-    n = 500 if ck.quick else 9000
+    n = 500 if ck.quick else 30000
     for i in range(n):
         hi = rng.choice([6, 10, 12, 20, 31, 50, 100, 200])
         W, H = rng.randint(1, hi), rng.randint(1, hi)
@@ -196,6 +196,34 @@ def gen_mid(ck: Check):
             l = max(1, min(l, min(W, H)))
             items.append([l, l, rng.randint(1, 3)])
         yield "bigbin", W, H, items
+
+
+def gen_matching(ck: Check):
+    """squares around the S2/S3 frontier (W/2 < l2 <= H, H/2 < l3 <= W/2) with different residual widths:
+    the instances on which the greedy matching of __lb_q decides the bound"""
+    rng = ck.rng
+    for _ in range(250 if ck.quick else 8000):
+        W = rng.randint(8, 26)
+        H = rng.randint(W // 2 + 1, W)
+        items, tot = [], 0
+        for _ in range(rng.randint(2, 6)):
+            kind = rng.random()
+            if kind < 0.4:
+                l = rng.randint(W // 2 + 1, H)
+            elif kind < 0.85:
+                l = rng.randint(H // 2 + 1, max(H // 2 + 1, W // 2))
+            else:
+                l = rng.randint(1, max(1, H // 2))
+            r = rng.choice([1, 1, 2, 3])
+            if tot + r > 9:
+                break
+            tot += r
+            items.append([l, l, r])
+        if not items:
+            continue
+        if rng.random() < 0.5:
+            W, H = H, W
+        yield "matching", W, H, items
 
 
 def gen_malformed(ck: Check):
@@ -347,8 +375,25 @@ def streams(ck: Check) -> None:
             wit = (rows, nb, "heuristic")
         add_lb(stream, W, H, items, max(W, H) <= 200, wit)
 
+    # ---- squares around the S2/S3 frontier: exact optimum where affordable, else best bottom-left packing
+    for stream, W, H, items in gen_matching(ck):
+        n = sum(r for _, _, r in items)
+        wit = None
+        if n <= 7:
+            k, rows = U.optimum(W, H, [tuple(r) for r in items], node_limit=60_000)
+            if k is not None:
+                wit = (rows, k, "optimum")
+            else:
+                ck.count("exact_budget_exhausted")
+        if wit is None:
+            inst = impl.instance(W, H, items)
+            if inst is not None and not isinstance(inst, str):
+                rows, nb = heuristic_packing(impl, inst, rng, 6)
+                wit = (rows, nb, "heuristic")
+        add_lb(stream, W, H, items, True, wit)
+
     # ---- (5) optimum known by construction: guillotine-cut perfect packings (and thinned ones)
-    for i in range(300 if ck.quick else 5000):
+    for i in range(300 if ck.quick else 15000):
         hi = rng.choice([4, 6, 8, 12, 20, 40, 100, 200])
         W, H = rng.randint(1, hi), rng.randint(1, hi)
         k = rng.randint(1, 6)
